@@ -657,6 +657,66 @@ func (p *Program) ruleBuildIndex(c *Check) {
 					}
 				}
 			}
+			// every iteration inserts: the loop counts i = 0,1,2… up to NumSegments() and no path
+			// through the loop body returns to the loop head without passing the insertion
+			every := ""
+			if isPhi && okLoop {
+				head := ph.Block()
+				stepOK := false
+				for _, e := range ph.Edges {
+					if bo, ok := e.(*ssa.BinOp); ok && bo.Op == token.ADD && bo.X == ssa.Value(ph) {
+						if kc, ok := bo.Y.(*ssa.Const); ok && kc.Int64() == 1 {
+							stepOK = true
+						}
+					}
+				}
+				if !stepOK {
+					every = "the loop does not advance by one segment per iteration"
+				}
+				boundOK := false
+				if len(head.Instrs) > 0 {
+					if iff, ok := head.Instrs[len(head.Instrs)-1].(*ssa.If); ok {
+						if bo, ok := iff.Cond.(*ssa.BinOp); ok && bo.Op == token.LSS && bo.X == ssa.Value(ph) {
+							if bc, ok := bo.Y.(*ssa.Call); ok {
+								if sc := bc.Call.StaticCallee(); sc != nil && sc.Name() == "NumSegments" && len(bc.Call.Args) > 0 && bc.Call.Args[0] == fn.Params[0] {
+									boundOK = true
+								}
+							}
+						}
+						if boundOK && len(head.Succs) == 2 {
+							// body entry = Succs[0]; can it get back to head avoiding the insertion block?
+							seen := map[*ssa.BasicBlock]bool{}
+							var walk func(b *ssa.BasicBlock) bool
+							walk = func(b *ssa.BasicBlock) bool {
+								if b == head {
+									return true
+								}
+								if b == cl.Block() || seen[b] {
+									return false
+								}
+								seen[b] = true
+								for _, s := range b.Succs {
+									if walk(s) {
+										return true
+									}
+								}
+								return false
+							}
+							if walk(head.Succs[0]) {
+								every = "some iteration of the loop skips the insertion: not every segment of the series is in the index"
+							}
+						}
+					}
+				}
+				if !boundOK && every == "" {
+					every = "the loop is not bounded by i < NumSegments() of the series being indexed"
+				}
+			}
+			if every != "" {
+				c.Bad("E9.I5", con+" every segment", p.Pos(cl.Pos()), every)
+			} else if isPhi && okLoop {
+				c.OK("E9.I5", con+" every segment", p.Pos(cl.Pos()), "i runs over 0 … NumSegments()-1 and every iteration inserts")
+			}
 			if sameIndex(k, item) && okLoop {
 				c.OK("E9.I5", con, p.Pos(cl.Pos()), "inserts (box of SegmentAt(i), i) for i counting up from 0")
 			} else {
